@@ -5,7 +5,7 @@
 From Coq Require Import List NArith Bool.
 From V.Lib Require Import Base Hex.
 From V.Gen Require Import C03Tables.
-From V.C03 Require Import Codec Sha256.
+From V.C03 Require Import Codec.
 Import ListNotations.
 Local Open Scope N_scope.
 
@@ -52,8 +52,8 @@ Definition alt_rejects (a : altobs) : bool :=
 Definition prefix_or (b : bytes) (c : N) (rw : option bytes) : bytes :=
   match rw with None => firstn (N.to_nat c) b | Some w => w end.
 
-(** The property on one transaction observation. *)
-Definition tx_prop (src ctx : N) (b : bytes) (o : outcome txobs unit) (alts : list altobs) : bool :=
+(** The property on one transaction observation; [H] is the identifier hash (SHA-256d). *)
+Definition tx_prop (H : bytes -> bytes) (src ctx : N) (b : bytes) (o : outcome txobs unit) (alts : list altobs) : bool :=
   match o with
   | Panic => false                                             (* never panics *)
   | Err _ => negb (generated src)                              (* generated => accepted *)
@@ -66,20 +66,20 @@ Definition tx_prop (src ctx : N) (b : bytes) (o : outcome txobs unit) (alts : li
       && same                                                  (* and that parses back to the same value *)
       && gen_same                                              (* generated => identical fields, txid, auth digest *)
       && (if legacy_hdr b
-          then bytes_eqb txid (sha256d (firstn (N.to_nat c) b)) (* v1-v4: txid = SHA-256d of the encoding *)
+          then bytes_eqb txid (H (firstn (N.to_nat c) b)) (* v1-v4: txid = SHA-256d of the encoding *)
                && (br =? ctx)                                  (*        branch id is the caller's *)
           else br =? u32_at 8 b)                               (* v5+:   branch id is the encoded one *)
       && forallb (alt_agrees c) alts                           (* same outcome through every reader *)
   end.
 
-Definition hdr_prop (src : N) (b : bytes) (o : outcome hdrobs unit) (alts : list altobs) : bool :=
+Definition hdr_prop (H : bytes -> bytes) (src : N) (b : bytes) (o : outcome hdrobs unit) (alts : list altobs) : bool :=
   match o with
   | Panic => false
   | Err _ => negb (generated src) && forallb alt_rejects alts
   | Ok (HdrOk c rw hash same) =>
       negb (must_reject src) && (c <=? nlen b) && (negb (generated src) || (c =? nlen b))
       && bytes_eqb (prefix_or b c rw) (firstn (N.to_nat c) b) && same
-      && bytes_eqb hash (sha256d (firstn (N.to_nat c) b))      (* block hash = SHA-256d of the encoding *)
+      && bytes_eqb hash (H (firstn (N.to_nat c) b))      (* block hash = SHA-256d of the encoding *)
       && forallb (alt_agrees c) alts
   end.
 
